@@ -470,24 +470,33 @@ def run(ctx):
         "translator tools/go2lean (kinds adminroutes, adminpred): renders the route registrations of "
         "NewHTTPServer and the control-flow skeleton of every handler (calls to receiver methods inlined, "
         "unknown statements kept as Skel.unknown), and isAuthorizedAdminRequest into a Lean Bool function",
-        "net/http and httprouter: routing, 404/405, header canonicalisation and trimming on the wire "
-        "(the model takes the header map as the handler receives it)",
+        "net/http and httprouter: routing, 404/405/OPTIONS, trimming of header values on the wire "
+        "(the model takes the header map as the handler receives it; Header.Get's canonicalisation is modelled and compared)",
+        "translator kind upstreamwrites: which ClusterInfo / http_api.Client method can send a non-GET request (the logger field "
+        "`c.log` is declared harmless in specs/e7_admin.json)",
         "net.ParseCIDR / net.ParseIP / IPNet.Contains, protocol.IsValidTopicName, encoding/json of the request "
         "body, lg.ParseLogLevel: their outcomes are inputs of the model (computed by the harness with the same calls)",
         "correspondence harness harness/e7/gate_test.go (recording stub nsqlookupd/nsqd upstreams, symbolic addresses)",
     ]
     ctx.assumptions += [
-        "an upstream stub either answers every request or fails every request (model AdminFanout.World)",
+        "an upstream stub answers or fails all its GETs and, independently, all its POSTs; an nsqd stub's /info may claim "
+        "another stub's address or a dead one (model AdminFanout.World)",
+        "admin_carried_out: 'well-formed request' = body decodes, topic/channel names pass IsValidTopicName/IsValidChannelName, "
+        "action in {pause, unpause, empty} (hypotheses WellFormed / validOf; the python oracle decides the same from the raw body)",
+        "the handler -> ClusterInfo -> requests composition is made in the driver, not in a Lean theorem",
         "request-level fan-out (which URLs each ClusterInfo action sends) is a hand-written model tied by "
         "correspondence and by a pinned fact table of the call/URI statements of data.go (Tie.AdminFanout); "
         "the handler-level statements are over regenerated skeletons",
     ]
     ctx.rule = ("correspondence: every registered route x 16 identities (absent, empty, non-admin, admin, second admin, "
                 "case/prefix/suffix/whitespace/list look-alikes, lower-case header name, other header, two values) x "
-                "admin list {[],[a],[a,b]} x ACL header name {canonical, lower-case, custom}; every mutating action x "
-                "12 upstream up/down worlds (lookupd and direct-nsqd mode) x ~10 bodies; /config GET/PUT x 9 CIDRs x "
-                "62+ client addresses; a case is distinct by its op line and non-trivial when it is a mutating or "
-                "/config request; oracle: property_fails_on evaluates C17 on the implementation's own answer")
+                "admin list {[],[a],[a,b]} x ACL header name {canonical, lower-case, custom}, 14 smuggling channels, off-the-wire "
+                "look-alikes, non-token ACL header names, every registered path x 7 methods x {admin, other}, every mutating route "
+                "x 16 identities in direct-nsqd mode; every mutating action x 24 upstream worlds (up/down, POST-failing, both modes, "
+                "nsqds whose /info claims another address) x ~10 bodies x topics / channels with reserved characters; /config GET/PUT "
+                "x 9 CIDRs x 62+ client addresses; the ClusterInfo methods directly on 22 fixed + N random worlds; the graphite proxy; "
+                "url.QueryEscape / CanonicalMIMEHeaderKey on fixed + random strings; a case is distinct by its op line and "
+                "non-trivial when it is not a plain GET view; oracle: property_fails_on evaluates C17 on the implementation's own answer")
     gen_ok, _ = ctx.gen("e7_admin")
     ctx.gen("e7_fanout")
     ctx.gen("e7_prog")
